@@ -35,6 +35,10 @@ var c01FileCases = []faCase{
 		patch: "@@\n@@\n f(\n   g01(...),\n       g02(...),\n  g03(...),\n     g04(...),\n   g05(...),\n         g06(...),\n  g07(...),\n    g08(...),\n   g09(...),\n      g10(...),\n  g11(...),\n     g12(...),\n   g13(...),\n        g14(...),\n-  old,\n+  renewed,\n )\n",
 		minus: "package p\n\nvar v = ⟦f(g01(«d1:1»), g02(«d2:a, b»), g03(), g04(«d3:c»), g05(«d4:2, 3»), g06(«d5:e»), g07(«d6:4»), g08(), g09(«d7:h, 5»), g10(«d8:i»), g11(«d9:6»), g12(«da:j»), g13(«db:7, k»), g14(«dc:8»), old)⟧\n",
 		plus:  "package p\n\nvar v = ⟦f(g01(«d1»), g02(«d2»), g03(), g04(«d3»), g05(«d4»), g06(«d5»), g07(«d6»), g08(), g09(«d7»), g10(«d8»), g11(«d9»), g12(«da»), g13(«db»), g14(«dc»), renewed)⟧\n"},
+	{name: "stmt-bare-nested-block",
+		patch: "@@\nvar x identifier\n@@\n-x.Lock()\n-defer x.Unlock()\n+guard(x)\n",
+		minus: "package p\n\nfunc f(n int) int {\n\t⟦«x:mu».Lock()\n\tdefer «x:mu».Unlock()⟧\n\t{\n\t\t⟦«x:rw».Lock()\n\t\tdefer «x:rw».Unlock()⟧\n\t}\n\tn = a(n)\n\tn = b(n)\n\treturn n\n}\n\nfunc g() {\n\tpre()\n\t{\n\t\t⟦«x:zz».Lock()\n\t\tdefer «x:zz».Unlock()⟧\n\t}\n\t⟦«x:yy».Lock()\n\tdefer «x:yy».Unlock()⟧\n\tpost()\n}\n",
+		plus:  "package p\n\nfunc f(n int) int {\n\t⟦guard(«x»)⟧\n\t{\n\t\t⟦guard(«x»)⟧\n\t}\n\tn = a(n)\n\tn = b(n)\n\treturn n\n}\n\nfunc g() {\n\tpre()\n\t{\n\t\t⟦guard(«x»)⟧\n\t}\n\t⟦guard(«x»)⟧\n\tpost()\n}\n"},
 	{name: "stmt-in-case-and-select",
 		patch: "@@\nvar x identifier\n@@\n-x.Lock()\n+lock(x)\n",
 		minus: "package p\n\nfunc f(c chan int) {\n\tswitch {\n\tcase true:\n\t\t⟦«x:mu».Lock()⟧\n\t}\n\tselect {\n\tcase <-c:\n\t\tpre()\n\t\t⟦«x:rw».Lock()⟧\n\t}\n}\n",
